@@ -10,8 +10,9 @@
   generator has stopped every priced derivation of the start symbol all of whose sub-programs the filter accepts
   has been yielded; C02_Beap_full: without a filter the output of a stopped generator is a permutation of the
   language), and TERMINATION in the partial form C02_Beap_terminates_partial (|language| + 1 calls of `next`
-  reach the end whenever the model run returns: explicit decidable hypothesis).  Not proved: that a sufficient
-  fuel exists (termination of one `next` call; no exception).
+  reach the end whenever the model run returns: explicit decidable hypothesis), C02_Beap_fuel_mono (a run that
+  returns with some fuel returns the same result with every larger fuel) and their sum C02_Beap_total_partial.
+  Not proved: that a sufficient fuel exists (termination of one `next` call; no exception).
 
   Proved here, for every grammar with distinct dict keys (`RowsNodup`), every cost table, every
   filter, every fuel and every HISTORY of `next` / `merge_program` calls (`Reach`):
@@ -48,6 +49,7 @@ import PS.Proofs.Enum.BeapSoundRun
 import PS.Proofs.Enum.BeapFrontier
 import PS.Proofs.Enum.BeapNodupFinal
 import PS.Proofs.Enum.BeapComplFinal
+import PS.Proofs.Enum.BeapFuel
 namespace PS.C02Beap
 open PS PS.G PS.Beap
 
@@ -415,5 +417,46 @@ example (lang : List Prog) (hmem : ∀ q x, costOf tinyE q tinyG.start = some x 
 /-- non-vacuity of C02_Beap_terminates_partial: with the five-element language list, six calls of `next` reach
     the end (and the hypothesis "the run returns" holds for fuel 100) -/
 example : (take tinyE 100 6 (Gen.new tinyG) []).map (fun r => r.2.2) = some true := by decide +kernel
+
+/-! ### the fuel is a proof artifact -/
+
+/-- **the result of a run does not depend on the fuel**: when `take k` returns with fuel `fuel` it returns the same
+    generator, the same programs and the same flag with every larger fuel (every grammar, cost table, filter, every
+    generator state — also after merges) -/
+theorem C02_Beap_fuel_mono {S : Type} [DecidableEq S] (E : Env S) (k : Nat) (g : Gen S) (acc : List Prog) (r : Gen S × List Prog × Bool)
+    (fuel fuel' : Nat) (hle : fuel ≤ fuel') (h : take E fuel k g acc = some r) : take E fuel' k g acc = some r :=
+  take_fuel_mono E k g acc r fuel fuel' hle h
+
+/-- **the whole statement of C02 for beap search, relative to "the run returns for some fuel"** (no filter): if the
+    priced derivations of the start symbol are exactly the members of the duplicate-free list `lang` and the model run
+    of `|lang| + 1` calls of `next` returns for SOME fuel, then for EVERY larger fuel it returns the same result: the
+    generator has stopped and its output is a permutation of `lang` -/
+theorem C02_Beap_total_partial {S : Type} [DecidableEq S] (E : Env S) (hf : ∀ t, E.filter t = true) (hnd : RowsNodup E.G)
+    (hst : StableAfter E) (hprod : Productive E) (hpos : PosW E) (lang : List Prog) (hl : lang.Nodup)
+    (hmem : ∀ q, q ∈ lang ↔ ∃ x, costOf E q E.G.start = some x)
+    (hret : ∃ fuel, (take E fuel (lang.length + 1) (Gen.new E.G) []).isSome = true) :
+    ∃ fuel0 g ys, ys.Perm lang ∧ ∀ fuel, fuel0 ≤ fuel → take E fuel (lang.length + 1) (Gen.new E.G) [] = some (g, ys, true) := by
+  obtain ⟨fuel0, h0⟩ := hret
+  cases hr : take E fuel0 (lang.length + 1) (Gen.new E.G) [] with
+  | none => rw [hr] at h0; cases h0
+  | some r =>
+    obtain ⟨g, ys, fin⟩ := r
+    have hfin : fin = true := C02_Beap_terminates_partial E hnd hst hprod hpos lang (fun q x hx => (hmem q).mpr ⟨x, hx⟩) fuel0 g ys fin hr
+    subst hfin
+    exact ⟨fuel0, g, ys, C02_Beap_full E hf hnd hst hprod hpos fuel0 _ g ys hr lang hl hmem,
+      fun fuel hle => C02_Beap_fuel_mono E _ _ _ _ fuel0 fuel hle hr⟩
+
+/-- non-vacuity: on the finite grammar the run returns for fuel 100 (tiny_run), so for every larger fuel; and for any
+    duplicate-free enumeration of the language the conclusion of C02_Beap_total_partial holds -/
+example (fuel : Nat) (h : 100 ≤ fuel) : (take tinyE fuel 10 (Gen.new tinyG) []).map (fun r => r.2.2) = some true := by
+  have hrun : (take tinyE 100 10 (Gen.new tinyG) []).map (fun r => r.2.2) = some true := by decide +kernel
+  cases hp : take tinyE 100 10 (Gen.new tinyG) [] with
+  | none => simp [hp] at hrun
+  | some r => rw [C02_Beap_fuel_mono tinyE 10 _ _ r 100 fuel h hp]; rw [hp] at hrun; exact hrun
+
+example (lang : List Prog) (hl : lang.Nodup) (hmem : ∀ q, q ∈ lang ↔ ∃ x, costOf tinyE q tinyG.start = some x)
+    (hret : ∃ fuel, (take tinyE fuel (lang.length + 1) (Gen.new tinyG) []).isSome = true) :
+    ∃ fuel0 g ys, ys.Perm lang ∧ ∀ fuel, fuel0 ≤ fuel → take tinyE fuel (lang.length + 1) (Gen.new tinyG) [] = some (g, ys, true) :=
+  C02_Beap_total_partial tinyE (fun _ => rfl) tiny_rowsNodup tiny_stable tiny_productive tiny_posW lang hl hmem hret
 
 end PS.C02Beap
